@@ -65,6 +65,23 @@ def check_timeline(tl, beats, exact, with_meta=True, free_points=()):
         raise
     except Exception as e:
         fail("querying the engine in reverse order raised", "answers", f"{type(e).__name__}: {e}")
+    # 0b. the timing data the engine was built from is an input: building and querying leaves it as it was, and
+    #     a second engine built from the very same object gives the same answers
+    try:
+        td = engine.timing_data
+        snap = TC.timing_snapshot(td)
+        e_again = TC.TimingEngine(td)
+        again = answers(e_again, beats[:: max(1, len(beats) // 8)])
+        diff = [k for k in again if again[k] != ans[k]]
+        if diff:
+            k = diff[0]
+            fail("a second engine built from the same timing data object answers differently", ans[k], again[k], query=[str(k[0]), str(k[1])])
+        if TC.timing_snapshot(td) != snap:
+            fail("building / querying an engine modified the caller's timing data", snap, TC.timing_snapshot(td))
+    except core.WatchdogTimeout:
+        raise
+    except Exception as e:
+        fail("building a second engine from the same timing data raised", "answers", f"{type(e).__name__}: {e}")
     # 1. time_at against the exact model
     for b in beats:
         for tag in T.TAGS:
